@@ -13,12 +13,12 @@ int vf_trk_kind = 0;
 size_t vf_max_alloc = 0;
 
 #ifdef __CPROVER__VF
-_Bool vf_nondet_bool(void);
-double vf_nondet_double(void);
+_Bool nondet_vf_bool(void);
+double nondet_vf_double(void);
 #else
 #include <math.h>
-static _Bool vf_nondet_bool(void) { return 0; }
-_Bool vf_nondet_fault(void) { return 0; }
+static _Bool nondet_vf_bool(void) { return 0; }
+_Bool nondet_vf_fault(void) { return 0; }
 #endif
 
 static void *vf_malloc(size_t n)
@@ -250,7 +250,7 @@ void vf_stream_write(vf_stream *f, const char *src, long n)
   }
   size_t room = (size_t)f->pos < f->cap ? f->cap - (size_t)f->pos : 0;
   size_t k = (size_t)n;
-  _Bool fault = vf_nondet_fault();
+  _Bool fault = nondet_vf_fault();
   if (k > room || fault) {
     /* device full / write error: an arbitrary prefix may have been stored */
     f->fail = 1;
@@ -313,7 +313,7 @@ void vf_stream_close(vf_stream *f)
     return;
   }
   f->is_open = 0;
-  if (f->writable && vf_nondet_fault())
+  if (f->writable && nondet_vf_fault())
     f->fail = 1; /* flushing the buffer failed */
 }
 
@@ -324,7 +324,7 @@ void *vf_new_array(size_t n, size_t elem)
   if (bytes > vf_max_alloc)
     vf_max_alloc = bytes;
   void *p = vf_malloc(bytes);
-  if (vf_nondet_bool()) {
+  if (nondet_vf_bool()) {
     vf_trk_ptr = p;
     vf_trk_kind = 1;
   }
@@ -334,7 +334,7 @@ void *vf_new_array(size_t n, size_t elem)
 void *vf_new_object(size_t sz)
 {
   void *p = vf_malloc(sz);
-  if (vf_nondet_bool()) {
+  if (nondet_vf_bool()) {
     vf_trk_ptr = p;
     vf_trk_kind = 2;
   }
@@ -376,7 +376,7 @@ double vf_pow(double b, double e)
       return 16777216.0;
   }
 #ifdef __CPROVER__VF
-  return vf_nondet_double();
+  return nondet_vf_double();
 #else
   return pow(b, e);
 #endif
